@@ -123,6 +123,15 @@ def run_shard(ctx):
         except Violation as v:
             ctx.violation(case, f"[fork shape {tag}] " + str(v))
             return
+    # richer break decisions (forks / loops inside the break branch)
+    for tag, case in pvcase.break_branch_cases(ctx.seed, ctx.shard,
+                                               ctx.nshards, False):
+        ctx.count("break_branch_shapes_enumerated")
+        try:
+            run_case(case, ctx)
+        except Violation as v:
+            ctx.violation(case, f"[break branch shape {tag}] " + str(v))
+            return
     # exhaustive loop/break family (1000 definitions, complete sets, k=2)
     for tag, case in pvcase.loop_shape_cases(ctx.seed, ctx.shard,
                                              ctx.nshards):
